@@ -230,7 +230,7 @@ _P_MORE = {
     "C18": "PROVED: Writer.field_to_s: at level >= 2 the text that is written has been validated whatever the stored value was (text or decoded value); Writer.to_list marks a line with an unwritable field; FieldData._set_existing_field validates at level 3 before storing; the decoded value of a list of identifiers is valid iff it is not empty and every element is an identifier (loop invariant). PROVED (part 7): FieldData.set validates the value of a NEW tag against its default datatype at level 3 before datatype and value are stored; a refused value leaves nothing behind. ",
     "C19": "PROVED: Cloning.clone copies every field by kind (reference -> identifier text, JSON -> round trip, array / list / text / position -> fresh object; loop invariant over all fields), hands the copy to the constructor with version and dialect of the original, gives the clone a datatype table of its own and neither owner nor collections; Line.__eq__ is true iff record type and field names agree and every field holds equal values or is written the same way. ",
     "C20": "PROVED: _set_existing_field drops the datatype of a tag exactly when None is assigned to a tag that has a value; Writer.field_to_s / to_list; DeleteTag for four receiver classes; FieldData.set by case (a new tag is stored together with the default datatype of its value, every refusal precedes every write); the table of default datatypes holds the documented entries (finite table). ",
-    "C10": "PROVED (part 7): Gfa.to_gfa2_s and Gfa.to_gfa2 hand what _gfa1_edges_without_id recorded before the first conversion to _take_back_assigned_ids exactly once on every way out, also when a line cannot be converted (try/finally); _take_back_assigned_ids removes the ID of exactly the recorded edges that are connected and have one, puts the two registries back and resets the counter (loop invariant). ",
+    "C10": "PROVED (part 7): Gfa.to_gfa2_s and Gfa.to_gfa2 hand what _gfa1_edges_without_id recorded before the first conversion to _take_back_assigned_ids exactly once on every way out, also when a line cannot be converted (try/finally); _take_back_assigned_ids removes the ID of exactly the recorded edges that are connected and have one, puts the two registries back and resets the counter (loop invariant); _gfa1_edges_without_id records exactly the links and containments without ID tag (filter over both collections), the counter, and COPIES of the two registries. ",
 }
 for _p, _t in _P_MORE.items():
     if _p in _P:
